@@ -1106,7 +1106,13 @@ func (rc *raftNode) processReady(rd raft.Ready) {
 		}
 		rc.Infof("raft transfer incoming snapshot done : %v", rd.Snapshot.String())
 	}
-	if isMeNewLeader {
+	// The messages of the Ready in which this node becomes leader may leave before the Ready is
+	// persisted (the leader writes its log in parallel with replicating it) only if the Ready does
+	// not change the hard state. A term or vote that is not durable yet is forgotten by a crash:
+	// in a group with one voter the node would then be elected for the same term again and could
+	// replicate different entries under the same index and term to its learners.
+	sendBeforePersist := isMeNewLeader && raft.IsEmptyHardState(rd.HardState)
+	if sendBeforePersist {
 		rc.transport.Send(processedMsgs)
 	}
 
@@ -1198,6 +1204,9 @@ func (rc *raftNode) processReady(rd raft.Ready) {
 		rc.transport.Send(processedMsgs)
 	} else {
 		raftDone <- struct{}{}
+		if !sendBeforePersist {
+			rc.transport.Send(processedMsgs)
+		}
 	}
 	verifCrashPoint("rd.advance.before")
 	rc.node.Advance(rd)
